@@ -1,6 +1,7 @@
 package govc
 
 import (
+	"go/token"
 	"fmt"
 	"sort"
 	"go/types"
@@ -16,6 +17,7 @@ type Effects struct {
 	Vars    map[string]sortFn
 	OldVars map[string]sortFn // variables whose old()-snapshot is reset (monitor re-acquisition)
 	All     bool
+	Why     []string // where 'All' came from (diagnostics)
 	// Locs: for arrays only written at known objects (SSA values), the objects; a variable that is in Vars but
 	// has Whole[v] set is written at unknown places
 	Locs  map[string][]ssa.Value
@@ -29,6 +31,7 @@ func newEffects() *Effects {
 func (e *Effects) add(o *Effects) {
 	if o.All {
 		e.All = true
+		e.Why = append(e.Why, o.Why...)
 	}
 	for v, f := range o.Vars {
 		e.Vars[v] = f
@@ -178,6 +181,7 @@ func (eng *Engine) modifiesEffects(c *FuncContract, fn *ssa.Function, s *sorts) 
 		names, err := eng.modifiesVars(m, fn, s)
 		if err != nil {
 			res.All = true
+			res.Why = append(res.Why, "modifies target: "+err.Error())
 			continue
 		}
 		for n, f := range names {
@@ -438,6 +442,11 @@ func rootsInAlloc(addr ssa.Value) bool {
 		switch a := addr.(type) {
 		case *ssa.FieldAddr:
 			addr = a.X
+		case *ssa.IndexAddr:
+			if _, isPtr := a.X.Type().Underlying().(*types.Pointer); !isPtr {
+				return false
+			}
+			addr = a.X // element of a local array (e.g. the argument pack of a variadic call)
 		case *ssa.Alloc:
 			return true
 		default:
@@ -462,6 +471,9 @@ func (eng *Engine) storeEffects(addr ssa.Value, s *sorts, res *Effects) {
 	case *ssa.IndexAddr:
 		switch xt := a.X.Type().Underlying().(type) {
 		case *types.Slice:
+			if ownSlice(a.X, map[ssa.Value]bool{}) {
+				return // elements of a slice this function made itself: the locations did not exist before the call
+			}
 			res.Vars["E."+sortTag(s, xt.Elem())] = arr2Of(xt.Elem())
 		case *types.Pointer:
 			if at, ok := xt.Elem().Underlying().(*types.Array); ok {
@@ -491,14 +503,19 @@ func (eng *Engine) callEffects(c *ssa.CallCommon, s *sorts, res *Effects, walk f
 			}
 			return
 		}
+		if n, ok := c.Value.Type().(*types.Named); ok && n.Obj().Pkg() != nil && n.Obj().Pkg().Path() == "sync" && n.Obj().Name() == "Locker" {
+			return // lock operations write no modelled state (monitor reasoning is separate)
+		}
 		if !closedWorld(c.Value.Type()) {
 			res.All = true // unknown implementation of an external interface
+			res.Why = append(res.Why, "open interface "+c.String())
 			return
 		}
 		impls := eng.Implementers(iface, typeName(c.Value.Type()))
 		for _, t := range impls {
 			if fn := eng.MethodOf(t, c.Method.Name(), c.Method.Pkg()); fn != nil {
 				walk(fn)
+				eng.argClosures(fn, c, walk, func() { res.All = true })
 			}
 		}
 		return
@@ -506,6 +523,9 @@ func (eng *Engine) callEffects(c *ssa.CallCommon, s *sorts, res *Effects, walk f
 	if b, ok := c.Value.(*ssa.Builtin); ok {
 		switch b.Name() {
 		case "append", "copy":
+			if ownSlice(c.Args[0], map[ssa.Value]bool{}) {
+				return // writes go to memory allocated by this function (or by append itself)
+			}
 			if st, ok := c.Args[0].Type().Underlying().(*types.Slice); ok {
 				res.Vars["E."+sortTag(s, st.Elem())] = arr2Of(st.Elem())
 			}
@@ -521,13 +541,18 @@ func (eng *Engine) callEffects(c *ssa.CallCommon, s *sorts, res *Effects, walk f
 			return
 		}
 		walk(fn)
+		eng.argClosures(fn, c, walk, func() { res.All = true })
 		return
 	}
 	if mc, ok := c.Value.(*ssa.MakeClosure); ok {
 		if fn, ok := mc.Fn.(*ssa.Function); ok {
 			walk(fn)
+			eng.argClosures(fn, c, walk, func() { res.All = true })
 			return
 		}
+	}
+	if p, ok := c.Value.(*ssa.Parameter); ok && eng.isCallOnlyParam(p) {
+		return // attributed to every call site of the enclosing function (argClosures)
 	}
 	// dynamic call through a struct field with an assumed function-value contract
 	if fc := eng.funcFieldContract(c.Value); fc != nil {
@@ -546,6 +571,7 @@ func (eng *Engine) callEffects(c *ssa.CallCommon, s *sorts, res *Effects, walk f
 	}
 	// dynamic call through a function value of unknown origin
 	res.All = true
+	res.Why = append(res.Why, "dynamic call "+c.String())
 }
 
 // funcFieldContract: the assumed contract for function values stored in the struct field that v is loaded from
@@ -709,6 +735,9 @@ func (eng *Engine) EffectsString(fn *ssa.Function) string {
 		ns = append(ns, n)
 	}
 	sort.Strings(ns)
+	if e.All {
+		return fmt.Sprintf("all=%v why=%v %v", e.All, e.Why, ns)
+	}
 	return fmt.Sprintf("all=%v %v", e.All, ns)
 }
 
@@ -787,10 +816,18 @@ func (eng *Engine) EventEffects(f *ssa.Function) (map[string]bool, bool) {
 					for _, t := range eng.Implementers(c.Value.Type().Underlying().(*types.Interface), typeName(c.Value.Type())) {
 						if m := eng.MethodOf(t, c.Method.Name(), c.Method.Pkg()); m != nil {
 							walk(m)
+							eng.argClosures(m, c, walk, func() {
+								res.all = true
+								res.why = append(res.why, fn.String()+": function value of unknown origin passed to "+m.String())
+							})
 						}
 					}
 				case c.StaticCallee() != nil:
 					walk(c.StaticCallee())
+					eng.argClosures(c.StaticCallee(), c, walk, func() {
+						res.all = true
+						res.why = append(res.why, fn.String()+": function value of unknown origin passed to "+c.StaticCallee().String())
+					})
 				default:
 					if _, isB := c.Value.(*ssa.Builtin); isB {
 						continue
@@ -800,6 +837,9 @@ func (eng *Engine) EventEffects(f *ssa.Function) (map[string]bool, bool) {
 							walk(cf)
 							continue
 						}
+					}
+					if p, ok := c.Value.(*ssa.Parameter); ok && eng.isCallOnlyParam(p) {
+						continue // attributed to every call site of the enclosing function (argClosures)
 					}
 					if eng.funcFieldContract(c.Value) != nil || eng.libraryFuncField(c.Value) != "" || eng.extFuncCall(c) {
 						continue
@@ -836,4 +876,132 @@ func (eng *Engine) EventEffectsString(fn *ssa.Function) string {
 	}
 	sort.Strings(ns)
 	return fmt.Sprintf("all=%v %v why=%v", all, ns, eng.eventEff[fn].why)
+}
+
+// ---- function-valued parameters that are only ever called ----
+// A function parameter whose only uses are calls contributes nothing to the summary of the function that
+// declares it; instead every call site adds the effects of the function value it passes (a closure or a
+// named function), or "anything" when the value's origin is not syntactically known.
+
+func (eng *Engine) isCallOnlyParam(p *ssa.Parameter) bool {
+	if _, ok := p.Type().Underlying().(*types.Signature); !ok {
+		return false
+	}
+	if p.Referrers() == nil {
+		return false
+	}
+	for _, r := range *p.Referrers() {
+		switch u := r.(type) {
+		case *ssa.DebugRef:
+		case ssa.CallInstruction:
+			if u.Common().Value != p {
+				return false
+			}
+			if _, isGo := r.(*ssa.Go); isGo {
+				return false
+			}
+			if _, isDefer := r.(*ssa.Defer); isDefer {
+				return false
+			}
+		default:
+			return false
+		}
+	}
+	return true
+}
+
+// argClosures visits the functions passed for the call-only function parameters of callee fn at call site c.
+func (eng *Engine) argClosures(fn *ssa.Function, c *ssa.CallCommon, visit func(*ssa.Function), unknown func()) {
+	if fn == nil || c == nil || fn.Blocks == nil || !eng.InModule(fn) {
+		return
+	}
+	for i, p := range fn.Params {
+		if !eng.isCallOnlyParam(p) {
+			continue
+		}
+		j := i
+		if c.IsInvoke() {
+			j = i - 1
+		}
+		if j < 0 || j >= len(c.Args) {
+			unknown()
+			continue
+		}
+		switch a := c.Args[j].(type) {
+		case *ssa.MakeClosure:
+			if f, ok := a.Fn.(*ssa.Function); ok {
+				visit(f)
+				continue
+			}
+			unknown()
+		case *ssa.Function:
+			visit(a)
+		case *ssa.Parameter:
+			if eng.isCallOnlyParam(a) {
+				continue // forwarded: attributed to the callers of the enclosing function in turn
+			}
+			unknown()
+		default:
+			unknown()
+		}
+	}
+}
+
+// ownSlice: the slice value can only refer to backing arrays allocated by the function that computes it
+// (make, nil, append onto such a slice, re-slicing, phi of such values, a never-escaping local variable
+// that only ever holds such values). Writes through it are invisible to every caller.
+func ownSlice(v ssa.Value, seen map[ssa.Value]bool) bool {
+	if seen[v] {
+		return true
+	}
+	seen[v] = true
+	switch x := v.(type) {
+	case *ssa.MakeSlice:
+		return true
+	case *ssa.Const:
+		return x.IsNil()
+	case *ssa.Slice:
+		if _, isSlice := x.X.Type().Underlying().(*types.Slice); isSlice {
+			return ownSlice(x.X, seen)
+		}
+		// slicing a local array (variadic argument packs): new [n]T
+		if al, ok := x.X.(*ssa.Alloc); ok {
+			_ = al
+			return true
+		}
+		return false
+	case *ssa.Phi:
+		for _, e := range x.Edges {
+			if !ownSlice(e, seen) {
+				return false
+			}
+		}
+		return true
+	case *ssa.Call:
+		if b, ok := x.Call.Value.(*ssa.Builtin); ok && b.Name() == "append" {
+			return ownSlice(x.Call.Args[0], seen)
+		}
+		return false
+	case *ssa.UnOp:
+		if x.Op != token.MUL {
+			return false
+		}
+		al, ok := x.X.(*ssa.Alloc)
+		if !ok || al.Referrers() == nil {
+			return false
+		}
+		for _, r := range *al.Referrers() {
+			switch u := r.(type) {
+			case *ssa.UnOp, *ssa.DebugRef:
+			case *ssa.Store:
+				if u.Addr != al || !ownSlice(u.Val, seen) {
+					return false
+				}
+			default:
+				return false
+			}
+		}
+		return true
+	}
+	return false
 }
